@@ -57,14 +57,16 @@ def _buffers(state) -> dict:
     return res
 
 
-def _pause_resume(env: Env, out: Outcome, n: int, corpus: list[dict], n_join: int = 0) -> None:
-    seed0 = env.rng.randrange(1 << 30)
+def _pause_resume(env: Env, out: Outcome, n: int, corpus: list[dict] | None, n_join: int = 0) -> None:
+    """corpus is not None: the replayed case and the corpus cases only (first thing of the run; draws nothing from env.rng);
+    corpus is None: the generated families"""
+    seed0 = env.rng.randrange(1 << 30) if corpus is None else 0
     rng = random.Random(seed0)
     jobs = []
-    if env.replay is not None and isinstance(env.replay.get("payload", {}).get("case"), dict) and "pause" in env.replay["payload"]["case"]:
+    if corpus is not None and env.replay is not None and isinstance(env.replay.get("payload", {}).get("case"), dict) and "pause" in env.replay["payload"]["case"]:
         c = env.replay["payload"]["case"]["pause"]
         jobs.append((c["spec"], c["seed"], c.get("actions1"), c.get("actions2")))
-    for item in corpus:
+    for item in corpus or []:
         if "pause" in item:
             c = item["pause"]
             jobs.append((c["spec"], c["seed"], c.get("actions1"), c.get("actions2")))
@@ -186,9 +188,10 @@ def run(env: Env) -> Outcome:
                 "non-trivial = something pending, buffered or waiting was loaded; todict: generated states (40% with a backlog) through to_dict -> JSON -> from_dict -> rewind; "
                 "parked: sequential ask/reply workflows, snapshot at the first quiet point(s), non-trivial = snapshot while waiting with nothing in flight")
     corpus = suite.load_corpus("C12")
+    _pause_resume(env, out, 0, corpus)  # the replayed case and the hand-picked ones first
     suite.serde_corr(env, out, env.budget(1500, 30000), stability_sig="C12/roundtrip_not_stable")
     suite.direct_corr(env, out, env.budget(800, 16000))
-    _pause_resume(env, out, env.budget(160, 3200), corpus, env.budget(60, 1200))
+    _pause_resume(env, out, env.budget(160, 3200), None, env.budget(60, 1200))
     # runs snapshotted while invocations are suspended in wait_for_event (several waiters of one step, requirements that do not
     # survive serialisation): every such invocation is re-registered on resume (shared with C10's resume family)
     from .c10 import _resume_runs as _wait_resume
